@@ -128,7 +128,10 @@ def transcript_of(data: dict, world: dict) -> dict:
         cur = Sym._unq_count
         k = len(str(cur))
         Sym._unq_count = max(cur, 10 ** k - int(world["sym_align"]))
+    noise = substream(world.get("seed", 0), "world-noise") if world.get("noise") else None
     for rec in sdata["ops"]:
+        if noise is not None:
+            _discarded_calls(S, noise, notes)
         n0 = len(S.log.events)
         S.apply(rec)
         for ev in S.log.events[n0:]:
@@ -150,6 +153,37 @@ def transcript_of(data: dict, world: dict) -> dict:
     for k in pids[-2:]:
         tr.append(["str", k, stable_hash(str(S.procs[k]))])
     return {"transcript": tr, "digest": stable_hash(json.dumps(tr)), "notes": notes, "z3_unknown": z3_unknown, "final": final}
+
+
+NOISE_OPS = ["eliminate_dead_code", "compile", "compile", "remove_loop", "simplify", "fuse", "reorder_loops", "stage_mem", "fission",
+             "delete_pass", "lift_scope", "divide_loop", "inline", "resize_dim", "merge_writes", "unroll_buffer"]
+
+
+def _discarded_calls(S, r, notes):
+    """World dimension "noise": between two steps of the script, other scheduling calls and
+    compilations are made on the live procedures and their results thrown away (most are rejected).
+    Scheduling is pure, so the script's transcript must not notice - this is the history of an
+    interactive session in which the user tried things that did not work out."""
+    from . import session as SS
+    import exo.API_scheduling as AS
+
+    for _ in range(r.choice([0, 1, 1, 2])):
+        pids = [k for k in S.procs if k == "p" or k.startswith("r")]
+        if not pids:
+            return
+        pid = r.choice(pids[-3:])
+        name = r.choice(NOISE_OPS)
+        try:
+            if name == "compile":
+                S.procs[pid].c_code_str()
+                continue
+            pr = SS.PROPOSERS[name](r, S, pid, SS.Feat(S.procs[pid]._loopir_proc))
+            if not pr:
+                continue
+            args = S.mat(pr[0])
+            getattr(AS, name)(S.procs[pid], *[list(a) if isinstance(a, list) else a for a in args], **pr[1])
+        except Exception:
+            pass
 
 
 def record_session(seed: int, cfg: dict) -> dict:
